@@ -116,7 +116,7 @@ def accepted_mutants(ctx):
     unchanged errors() rejects every one that is not well-defined, so none of those reaches this check; if validation
     starts to accept some, they are validated models and the statement must hold for them too"""
     from props.c10 import mutate
-    for _ in range(60 if ctx.quick else 400):
+    for _ in range(180 if ctx.quick else 900):
         a, o, t = gen_valid(ctx.rng, ctx.quick, twins=False)
         m, op = mutate(ctx.rng, a)
         try:
